@@ -81,6 +81,19 @@ CLAIMED = {
             "Custody is kept by the abstract external chains: a deposit locks exactly the event's Amount (as Hub2.transferToChain / the Minter multisig do), an executed batch pays out its members' amounts. "
             "Governance proposals are outside the quantifier. The Byzantine-minority part of the quantifier is exercised by C14 (claim identity) and C02.",
             "DESIGN.md §4 C01"),
+    "C06": ("exploration",
+            "metamorphic property-based testing (rapid): the same history executed in several fresh instances must give identical state and events",
+            "Whole-bridge histories biased to the map-using paths (several tokens unbatched at even heights, oracle price/holder claims by every validator, cross-chain transfers, executions) are executed "
+            "4 times in fresh instances within one process (Go re-randomises every map range); the hash of all mhub2/oracle/bank/auth state and a digest of the ABCI events are compared after every Begin/EndBlock.",
+            "Goroutine scheduling is not controlled; map-order nondeterminism shows up with probability >= 1/2 per run pair for a two-key map.",
+            "DESIGN.md §4 C06"),
+    "C18": ("exploration",
+            "stateful property-based testing (rapid) against a reference epoch model with exact weighted-median and two-thirds predicates",
+            "Claim histories on SimStaking (1..9 validators of any power): repeated claims with changed values, stale/future epochs, missing or non-positive required prices, extra names, competing holder lists, "
+            "stake changes, unbonding, foreign claimers. Prices/holders/epoch may change only in the EndBlock of heights = 0 mod 5, the epoch advances by one, prices change only if distinct claimers hold "
+            ">=66% of the power at that moment, every stored price lies between the lower and upper stake-weighted medians of the validators' latest values, a holder list is adopted only with > 2/3 of stake behind the identical list.",
+            "SimStaking double; weighted medians computed with exact stakes and with the module's 2^16 normalisation, the wider interval accepted.",
+            "DESIGN.md §4 C18"),
 }
 
 NOT_YET = "check not built yet in this round (planned in DESIGN.md §4); not claimed until its machinery exists"
